@@ -10,6 +10,7 @@ import (
 	"strconv"
 	"strings"
 	"sync"
+	"sync/atomic"
 	"testing"
 	"time"
 
@@ -19,6 +20,51 @@ import (
 
 	"verifharness/internal/kit"
 )
+
+// ---------------------------------------------------------------- sockets
+
+// wireIncomplete counts through-proxy cases that could not be judged
+// (expired bounded wait, no free loopback port); TestWire refuses to pass when
+// they are frequent.
+var wireIncomplete int64
+
+// listenLoopback retries: under 16 parallel shards the ephemeral port range can
+// be momentarily exhausted by sockets in TIME_WAIT - infrastructure, not martian.
+func listenLoopback() (net.Listener, error) {
+	var err error
+	for i := 0; i < 40; i++ {
+		var ln net.Listener
+		if ln, err = net.Listen("tcp", "127.0.0.1:0"); err == nil {
+			return ln, nil
+		}
+		time.Sleep(50 * time.Millisecond)
+	}
+	return nil, err
+}
+
+// noTimeWait makes Close send a reset, so that the thousands of short-lived
+// connections of a run do not pile up in TIME_WAIT.
+func noTimeWait(c net.Conn) {
+	if tc, ok := c.(*net.TCPConn); ok {
+		tc.SetLinger(0)
+	}
+}
+
+func dialLoopback(addr string, wait time.Duration) (net.Conn, error) {
+	var c net.Conn
+	var err error
+	for i := 0; i < 40; i++ {
+		if c, err = net.DialTimeout("tcp", addr, wait); err == nil {
+			noTimeWait(c)
+			return c, nil
+		}
+		if !strings.Contains(err.Error(), "cannot assign requested address") && !strings.Contains(err.Error(), "address already in use") {
+			return nil, err
+		}
+		time.Sleep(50 * time.Millisecond)
+	}
+	return nil, err
+}
 
 // ---------------------------------------------------------------- raw origin
 
@@ -72,7 +118,7 @@ type origin struct {
 }
 
 func newOrigin(wait time.Duration, resp []byte) (*origin, error) {
-	ln, err := net.Listen("tcp", "127.0.0.1:0")
+	ln, err := listenLoopback()
 	if err != nil {
 		return nil, err
 	}
@@ -90,6 +136,7 @@ func (o *origin) serve() {
 			return
 		}
 		o.mu.Lock()
+		noTimeWait(c)
 		o.conns = append(o.conns, c)
 		o.mu.Unlock()
 		o.wg.Add(1)
@@ -149,7 +196,7 @@ func (o *origin) close() {
 // exchange opens a connection to the proxy, writes raw and reads one response
 // header block.
 func exchange(addr string, raw []byte, wait time.Duration) (string, error) {
-	conn, err := net.DialTimeout("tcp", addr, wait)
+	conn, err := dialLoopback(addr, wait)
 	if err != nil {
 		return "", err
 	}
@@ -215,13 +262,20 @@ func runWire(c Case) kit.Verdict {
 	if !valid(c) {
 		return nil
 	}
+	kit.Assume("through-proxy variant: origin responses do not carry the token 'close' in Connection (net/http's response reader deletes the whole Connection header then, so the stack never sees the nominations), and Connection/Transfer-Encoding/Trailer are not compared (regenerated per hop by net/http)")
 	wait := 3 * kit.T() // liveness is not this property: an expired wait is inconclusive, never a failure
+	noPort := func(err error) kit.Verdict {
+		atomic.AddInt64(&wireIncomplete, 1)
+		kit.Inconclusive("wire")
+		kit.Note("wire", "no free loopback port for a case (infrastructure); counted inconclusive: "+err.Error())
+		return nil
+	}
 	var self string
 	substNow := func(s string) string { return substFor(c.Name, self)(s) }
 
 	o, err := newOrigin(wait, []byte("HTTP/1.1 200 OK\r\nContent-Length: 0\r\n\r\n"))
 	if err != nil {
-		panic(err)
+		return noPort(err)
 	}
 	defer o.close()
 
@@ -231,10 +285,10 @@ func runWire(c Case) kit.Verdict {
 	p.SetResponseModifier(stack)
 	p.SetTimeout(60 * time.Second)
 	originAddr := o.ln.Addr().String()
-	p.SetDial(func(network, addr string) (net.Conn, error) { return net.DialTimeout("tcp", originAddr, wait) })
-	pl, err := net.Listen("tcp", "127.0.0.1:0")
+	p.SetDial(func(network, addr string) (net.Conn, error) { return dialLoopback(originAddr, wait) })
+	pl, err := listenLoopback()
 	if err != nil {
-		panic(err)
+		return noPort(err)
 	}
 	go p.Serve(pl)
 	defer func() {
@@ -253,6 +307,7 @@ func runWire(c Case) kit.Verdict {
 	proxyAddr := pl.Addr().String()
 
 	inconclusive := func(what string, err error) kit.Verdict {
+		atomic.AddInt64(&wireIncomplete, 1)
 		kit.Inconclusive("wire")
 		kit.Note("wire", "a bounded wait expired ("+what+"); counted inconclusive")
 		_ = err
@@ -372,14 +427,18 @@ var propWire = &kit.Prop[Case]{
 	ID: "C14", Name: "wire",
 	Rule: "the same header shapes written as raw bytes (names in drawn case, drawn padding) by a TCP client through martian.NewProxy carrying the stack to a raw TCP origin that logs the header block it receives; origin-side and client-side header blocks compared with the model (Connection, Transfer-Encoding, Trailer not asserted: net/http regenerates them per hop; no framing conflicts: net/http rejects them before the stack); non-trivial as for the in-process check",
 	Gen:  genWire, Run: runWire, NonTrivial: nontrivial, Classes: classes,
-	Gates: map[string]float64{"nontrivial": 0.5, "via-self": 0.1, "via-multi-line": 0.15, "conn-nominates-present-ext": 0.1},
+	Gates:   map[string]float64{"nontrivial": 0.5, "via-self": 0.1, "via-multi-line": 0.15, "conn-nominates-present-ext": 0.1},
 	Journal: true,
 }
 
 func TestWire(t *testing.T) {
-	n := kit.N(150, 150)
+	n := kit.N(400, 1500)
 	if kit.Race() {
-		n = kit.N(60, 100)
+		n = kit.N(150, 600)
 	}
 	propWire.Check(t, n)
+	if inc := atomic.LoadInt64(&wireIncomplete); inc*10 > int64(n) {
+		// no VIOLATION line: the driver reports infrastructure trouble (exit 2)
+		t.Fatalf("infrastructure: %d of %d through-proxy cases could not be judged (expired waits / no free ports); inconclusive, not a violation", inc, n)
+	}
 }
